@@ -281,6 +281,6 @@ pub fn def() -> PropDef {
         rule: "schedules of up to 42 events on a real client TransportState (policy None): submit a request, poll the transport once (takes the next request in flight, notices passed deadlines), a response of 1..4 chunks for a request in flight / already completed / unknown id ending in a final chunk, an abort chunk or never completing, move a deadline into the past, close with Good / BadConnectionClosed / BadServerHalted; a model tracks every request; after every event each callback is polled: it completes exactly once, with the response built for its id, BadTimeout after its forced deadline was noticed, BadCommunicationError after an abort chunk, or the close status; responses for unknown or completed ids change nothing; non-trivial = a response and an expiry for the same request, a response out of submission order, a response for a completed request, or a response left incomplete at the close; distinct = distinct schedule",
         assumptions: &["the chunks of one response arrive contiguously with consecutive sequence numbers (validate_chunks requires it)", "deadlines are std::time::Instant: a deadline is expired by moving it into the past through the hook and is noticed at the next poll of the transport, as in the real loop"],
         abort_possible: false,
-        parts: |tier| vec![part("transport_schedule", tier.pick(3000, 80000), history(), run)],
+        parts: |tier| vec![part("transport_schedule", tier.pick(3000, 800_000), history(), run)],
     }
 }
